@@ -214,7 +214,17 @@ func (e *Exec) localEnv(s *State) func(string) (Value, bool) {
 			} else if _, ok := e.vals[a]; !ok {
 				return
 			}
-			if best == nil || a.Pos() > best.Pos() {
+			if best == nil {
+				best = a
+				return
+			}
+			// prefer the declaration that dominates the current block and is closest to it
+			ad := e.cur == nil || a.Block().Dominates(e.cur)
+			bd := e.cur == nil || best.Block().Dominates(e.cur)
+			switch {
+			case ad && !bd:
+				best = a
+			case ad == bd && (a.Pos() > best.Pos() || (a.Pos() == best.Pos() && a.Block().Index > best.Block().Index)):
 				best = a
 			}
 		}
@@ -574,7 +584,9 @@ func (e *Exec) finish(vars map[string]Value) {
 		env.vars["result"] = results[0]
 	}
 	for _, ga := range e.Con.GhostRet {
-		e.ghostAssign(exit, env, ga)
+		// locals that exist on every return path are in scope (after parameters and results)
+		genv := &Env{e: e, vars: env.vars, st: exit, old: e.entry, pkgPath: env.pkgPath, lookup: e.localEnv(exit)}
+		e.ghostAssignEnv(exit, genv, ga)
 	}
 	e.cover("cover.exit", "", e.reach)
 	// case split of the postconditions over the dynamic type of interface-valued expressions
@@ -623,6 +635,8 @@ func (e *Exec) finish(vars map[string]Value) {
 		for _, c := range cases {
 			e.oblige("post", lbl+c.label, en.Text, en.Props, c.guard, t)
 		}
+		// assert-then-assume: later postconditions (and the interface contract) may use this one
+		e.assume(t)
 	}
 	// behavioural subtyping: the contract of an interface method binds every implementation
 	for _, ic := range e.ifaceContractsFor() {
